@@ -496,7 +496,7 @@ ReceiveRequest(s) ==
                /\ \A a \in areq[s] : ~(a.c = c /\ a.n = e.n)
                /\ reqq' = [reqq EXCEPT ![c][s] = Tail(@)]
                /\ areq' = [areq EXCEPT ![s] = @ \cup {[c |-> c, n |-> e.n, ch |-> e.ch, x |-> e.x,
-                                                        conn |-> c \in sview[s], lc |-> 0, nj |-> 0, sq |-> 0]}]
+                                                        conn |-> c \in sview[s], lc |-> 0, nj |-> 0, sq |-> 0, lk |-> 0]}]
                /\ out' = Out("some", e.n, e.ch, e.x, c, 0, 0, B2N(~HeadClosed(s, c)))
           \/ /\ eligible = {}
              /\ \E r \in {"none", "ExceedsMaxBorrows"} :
@@ -524,39 +524,51 @@ PickRespX(s, observable) == IF ~observable \/ ~TrackIds THEN {0}
                             ELSE IF MinChunk THEN {Min(FreeRespIds(s))} ELSE FreeRespIds(s)
 SenderLoanLimit == MLR * MA * MCL
 
-\* outcome of the loan part: "ok" or an error; errors after the per-request counter was incremented
-\* leave it incremented (known shape "loan-counter-not-restored")
+\* outcome of the loan part: "ok" or an error. A failed allocation has no side effect (lk is a ghost that
+\* counts them: in the known shape "loan-counter-not-restored" - repaired in /repo - every failed
+\* allocation left the per-request loan counter incremented).
 LoanOutcome(s, a) ==
     IF a.lc >= MLR THEN "ExceedsMaxLoans"
     ELSE IF Cardinality(rloans[s]) >= SenderLoanLimit THEN "ExceedsMaxLoans*"
     ELSE IF RespInUse(s) >= NRESP THEN "OutOfMemory*"
     ELSE "ok"
+LeakWouldRefuse(a) == a.lc < MLR /\ a.lc + a.lk >= MLR
 
 ReplaceAr(s, a, b) == [areq EXCEPT ![s] = (@ \ {a}) \cup {b}]
 
 LoanFailure(s, a, o) ==
     IF o = "ExceedsMaxLoans"
     THEN /\ out' = OutR("ExceedsMaxLoans") /\ UNCHANGED <<areq, kd>>
-    ELSE /\ AllowKnown
-         /\ o = "OutOfMemory*" => RespOomKnown(s)
-         /\ areq' = ReplaceAr(s, a, [a EXCEPT !.lc = @ + 1])
-         /\ kd' = kd \cup (IF o = "OutOfMemory*" THEN {"resp-oom-stale-responses"} ELSE {})
-                     \cup {"loan-counter-not-restored"}
-         /\ out' = OutR(IF o = "OutOfMemory*" THEN "OutOfMemory" ELSE "ExceedsMaxLoans")
+    ELSE IF o = "ExceedsMaxLoans*"
+    THEN /\ out' = OutR("ExceedsMaxLoans")
+         /\ areq' = ReplaceAr(s, a, [a EXCEPT !.lk = @ + 1])
+         /\ UNCHANGED kd
+    ELSE \* inside the limits and nevertheless no memory: only as the known shape
+         /\ AllowKnown /\ RespOomKnown(s)
+         /\ areq' = ReplaceAr(s, a, [a EXCEPT !.lk = @ + 1])
+         /\ kd' = kd \cup {"resp-oom-stale-responses"}
+         /\ out' = OutR("OutOfMemory")
+\* the loan is refused with ExceedsMaxLoans only because of earlier failed allocations
+LoanRefusedByLeak(s, a) ==
+    /\ AllowKnown /\ LeakWouldRefuse(a)
+    /\ kd' = kd \cup {"loan-counter-not-restored"}
+    /\ out' = OutR("ExceedsMaxLoans")
+    /\ UNCHANGED areq
 
 LoanResponse(s, c, n) ==
     /\ sst[s] = "alive"
     /\ \E a \in areq[s] :
         /\ a.c = c /\ a.n = n
         /\ a.nj < MaxJ
-        /\ LET o == LoanOutcome(s, a) IN
-           IF o = "ok"
-           THEN \E x \in PickRespX(s, TRUE) :
-                /\ rloans' = [rloans EXCEPT ![s] = @ \cup {[c |-> c, n |-> n, j |-> a.nj + 1, x |-> x]}]
-                /\ areq' = ReplaceAr(s, a, [a EXCEPT !.lc = @ + 1, !.nj = @ + 1])
-                /\ out' = Out("ok", n, a.ch, x, s, a.nj + 1, 0, 0)
-                /\ UNCHANGED kd
-           ELSE LoanFailure(s, a, o) /\ UNCHANGED rloans
+        /\ \/ LET o == LoanOutcome(s, a) IN
+              IF o = "ok"
+              THEN \E x \in PickRespX(s, TRUE) :
+                   /\ rloans' = [rloans EXCEPT ![s] = @ \cup {[c |-> c, n |-> n, j |-> a.nj + 1, x |-> x]}]
+                   /\ areq' = ReplaceAr(s, a, [a EXCEPT !.lc = @ + 1, !.nj = @ + 1])
+                   /\ out' = Out("ok", n, a.ch, x, s, a.nj + 1, 0, 0)
+                   /\ UNCHANGED kd
+              ELSE LoanFailure(s, a, o) /\ UNCHANGED rloans
+           \/ LoanRefusedByLeak(s, a) /\ UNCHANGED rloans
     /\ UNCHANGED <<cst, sst, cview, sview, cexp, pool, nextn, loans, pend, reqq, qref, rst, rq, held, closedA, delivered, gone>>
 
 \* delivery of response e through active request a: no look at the channel state
@@ -585,12 +597,13 @@ SendCopyResponse(s, c, n) ==
     /\ \E a \in areq[s] :
         /\ a.c = c /\ a.n = n
         /\ a.nj < MaxJ
-        /\ LET o == LoanOutcome(s, a) IN
-           IF o = "ok"
-           THEN /\ areq' = ReplaceAr(s, a, [a EXCEPT !.nj = @ + 1, !.sq = @ + 1])
-                /\ RespDeliver(s, a, [n |-> n, j |-> a.nj + 1, x |-> 0, q |-> a.sq + 1])
-                /\ out' = Out("ok", n, a.ch, 0, s, a.nj + 1, 0, 0)
-           ELSE LoanFailure(s, a, o) /\ UNCHANGED rq
+        /\ \/ LET o == LoanOutcome(s, a) IN
+              IF o = "ok"
+              THEN /\ areq' = ReplaceAr(s, a, [a EXCEPT !.nj = @ + 1, !.sq = @ + 1])
+                   /\ RespDeliver(s, a, [n |-> n, j |-> a.nj + 1, x |-> 0, q |-> a.sq + 1])
+                   /\ out' = Out("ok", n, a.ch, 0, s, a.nj + 1, 0, 0)
+              ELSE LoanFailure(s, a, o) /\ UNCHANGED rq
+           \/ LoanRefusedByLeak(s, a) /\ UNCHANGED rq
     /\ UNCHANGED <<cst, sst, cview, sview, cexp, pool, nextn, loans, pend, reqq, qref, rst, held, rloans, closedA, delivered, gone>>
 
 DropResponseLoan(s, c, n, j) ==
@@ -660,16 +673,23 @@ ProbeResponseLoans(s, c, n) ==
         /\ LET room == IF MLR > a.lc THEN MLR - a.lc ELSE 0
                sroom == IF SenderLoanLimit > Cardinality(rloans[s]) THEN SenderLoanLimit - Cardinality(rloans[s]) ELSE 0
                free == NRESP - RespInUse(s)
-           IN IF room <= sroom /\ room <= free
-              THEN /\ out' = Out("ExceedsMaxLoans", 0, -1, 0, 0, 0, 0, room) /\ UNCHANGED <<areq, kd>>
-              ELSE /\ AllowKnown
-                   /\ (free < sroom) => RespOomKnown(s)
-                   /\ areq' = ReplaceAr(s, a, [a EXCEPT !.lc = @ + 1])
-                   /\ kd' = kd \cup (IF free < sroom THEN {"resp-oom-stale-responses"} ELSE {})
-                               \cup {"loan-counter-not-restored"}
-                   /\ out' = Out(IF free < sroom THEN "OutOfMemory" ELSE "ExceedsMaxLoans", 0, -1, 0, 0, 0, 0,
-                                 IF free < sroom THEN free ELSE sroom)
-    /\ UNCHANGED <<cst, sst, cview, sview, cexp, pool, nextn, loans, pend, reqq, qref, rst, rq, held, rloans, closedA, delivered, gone>>
+               lroom == IF MLR > a.lc + a.lk THEN MLR - a.lc - a.lk ELSE 0
+           IN \/ IF room <= sroom /\ room <= free
+                 THEN /\ out' = Out("ExceedsMaxLoans", 0, -1, 0, 0, 0, 0, room) /\ UNCHANGED <<areq, kd>>
+                 ELSE IF free < sroom
+                 THEN /\ AllowKnown /\ RespOomKnown(s)
+                      /\ areq' = ReplaceAr(s, a, [a EXCEPT !.lk = @ + 1])
+                      /\ kd' = kd \cup {"resp-oom-stale-responses"}
+                      /\ out' = Out("OutOfMemory", 0, -1, 0, 0, 0, 0, free)
+                 ELSE /\ areq' = ReplaceAr(s, a, [a EXCEPT !.lk = @ + 1])
+                      /\ out' = Out("ExceedsMaxLoans", 0, -1, 0, 0, 0, 0, sroom)
+                      /\ UNCHANGED kd
+              \/ /\ AllowKnown /\ a.lk > 0 /\ lroom < room /\ lroom <= sroom /\ lroom <= free
+                 /\ kd' = kd \cup {"loan-counter-not-restored"}
+                 /\ out' = Out("ExceedsMaxLoans", 0, -1, 0, 0, 0, 0, lroom)
+                 /\ UNCHANGED areq
+    /\ UNCHANGED <<cst, sst, cview, sview, cexp, pool, nextn, loans, pend, reqq, qref, rst, rq, held, rloans,
+                   closedA, delivered, gone>>
 
 (* ------------------------------- next-state ------------------------------- *)
 Internal ==
